@@ -4,12 +4,14 @@
 #![allow(dead_code, unused_imports, static_mut_refs, clippy::all)]
 pub mod support;
 pub mod h_scalars;
+pub mod h_derive;
 
 pub type Body = fn();
 /// harness name -> body (used by the native replay binary)
 pub fn registry() -> Vec<(&'static str, Body)> {
     let mut v: Vec<(&'static str, Body)> = Vec::new();
     v.extend(h_scalars::registry());
+    v.extend(h_derive::registry());
     v
 }
 
